@@ -1,15 +1,18 @@
 (* Property C03: simplification and reduction preserve the functions an equation can express.
    FULL: reduction (clause 1); the two translations between stacks and expression trees (CSE dictionary, balanced splitting of
-   n-ary sums/products, constant renumbering) preserve the meaning; the optional modifications preserve the meaning.
-   PARTIAL (named so): automatic_simplify and the whole pipeline are sound RELATIVE to the list of identities [cas_laws] - every
-   rewrite is an instance of one of them - and relative to the contract of fold_constants (not modelled). The identities hold over
-   the reals only on their domains (positive power bases, non-zero denominators); taken unconditionally they force 0 = 1
-   (cas_laws_degenerate below), so these two theorems are a certificate of WHICH identities are used, not a pointwise statement.
-   What is missing for the full statement: the domain bookkeeping (refinement where the original is finite), the contract of
-   fold_constants, termination (the model takes fuel). These are covered by the differential oracle only. *)
-From Coq Require Import ZArith List Bool Lia.
+   n-ary sums/products, constant renumbering) preserve the meaning; the optional modifications preserve the meaning;
+   automatic_simplify REFINES the expression pointwise over the reals - at every point and for every setting of the constants at
+   which the original is a finite real, the simplified expression is the same finite real - whenever the three power identities
+   are applied to integer exponents only (model flag iexp = true: the model returns None otherwise; that flag is on for every
+   stack without power operators in the correspondence check, so "the guard never fires there" is tested, not proved).
+   PARTIAL (named so): the whole pipeline is a refinement relative to the contract of fold_constants (not modelled);
+   for expressions with non-integer exponents automatic_simplify is only shown to rewrite by the listed identities read as
+   unconditional equations (cas_laws A eq false), a reading that forces 0 = 1 (degeneracy theorem below) - a certificate of WHICH
+   identities are used, not a pointwise statement; the property's "agree where both are finite, for generic constants" clause for
+   power operators, termination (the model takes fuel) and floating-point effects are covered by the differential oracle only. *)
+From Coq Require Import Reals ZArith List Bool Lia Lra.
 From Bingo Require Import Lib.Alg Gen.OpDefs Gen.OpEval Model.Stack Model.Cas Model.Parse Model.AGraphObj Model.TermAlg
-     Proofs.ReduceProofs Proofs.BuildProofs Proofs.CasProofs Proofs.CasInterpProofs Proofs.CasPipeline.
+     Proofs.ReduceProofs Proofs.BuildProofs Proofs.CasProofs Proofs.CasInterpProofs Proofs.CasPipeline Proofs.CasReal Proofs.CasGuard.
 Import ListNotations.
 
 (* ---- clause 1: reduction ---- *)
@@ -46,42 +49,136 @@ Theorem C03_build_agraph_stack_means_the_expression :
 Proof. exact @build_agraph_stack_sound. Qed.
 Print Assumptions C03_build_agraph_stack_means_the_expression.
 
-(* ---- automatic_simplify: every rewrite is an instance of the listed identities (PARTIAL, see the header) ---- *)
-Theorem C03_automatic_simplify_sound_partial :
-  forall (V : Type) (A : alg V), cas_laws A -> forall xv cv depth rf e r,
-  automatic_simplify true depth rf e = Some r -> ev A xv cv r = ev A xv cv e.
-Proof. intros V A L xv cv depth rf e r. apply auto_sound. exact L. Qed.
-Print Assumptions C03_automatic_simplify_sound_partial.
+(* ---- automatic_simplify over the reals: wherever the original is a finite real, so is the result, and they are equal
+        (checked model: merge-shape and integer-exponent assertions on; any treatment [fits] of integer folding) ---- *)
+Theorem C03_automatic_simplify_refines_pointwise_over_the_reals :
+  forall fits (xv cv : Z -> option R) depth rf e r,
+  automatic_simplify true true fits depth rf e = Some r ->
+  forall v, ev real_alg xv cv e = Some v -> ev real_alg xv cv r = Some v.
+Proof. intros fits xv cv depth rf e r H. exact (auto_sound real_alg oref true real_laws fits xv cv depth rf e r H). Qed.
+Print Assumptions C03_automatic_simplify_refines_pointwise_over_the_reals.
 
-Theorem C03_optional_modifications_sound_partial :
-  forall (V : Type) (A : alg V), cas_laws A -> forall xv cv depth e r,
-  optional_modifications depth e = Some r -> ev A xv cv r = ev A xv cv e.
-Proof. intros V A L xv cv depth e r. apply optional_sound. exact L. Qed.
-Print Assumptions C03_optional_modifications_sound_partial.
+Theorem C03_optional_modifications_preserve_the_value_over_the_reals :
+  forall (xv cv : Z -> option R) depth e r,
+  optional_modifications depth e = Some r -> ev real_alg xv cv r = ev real_alg xv cv e.
+Proof. intros xv cv depth e r. exact (optional_sound real_alg oref true real_laws xv cv depth e r). Qed.
+Print Assumptions C03_optional_modifications_preserve_the_value_over_the_reals.
 
-(* ---- the pipeline: for every setting of the original constants some setting of the simplified constants agrees at every
-        point - relative to the identities and to the contract of fold_constants (PARTIAL) ---- *)
-Theorem C03_simplify_preserves_the_expressible_functions_partial :
-  forall (V : Type) (A : alg V), cas_laws A ->
-  forall fold s e0 e1 e3 out fuel,
-  fold_contract A fold -> scoped s -> s <> [] ->
-  build_cas s = Some e0 -> automatic_simplify true fuel fuel e0 = Some e1 ->
+(* ---- the pipeline over the reals: for every setting of the original constants some setting of the simplified constants
+        refines it at every point - relative to the contract of fold_constants (PARTIAL) ---- *)
+Theorem C03_simplify_refines_the_expressible_functions_over_the_reals_partial :
+  forall fits fold s e0 e1 e3 out fuel,
+  fold_contract real_alg oref fold -> scoped s -> s <> [] ->
+  build_cas s = Some e0 -> automatic_simplify true true fits fuel fuel e0 = Some e1 ->
   optional_modifications fuel (fold e1) = Some e3 -> arity_ok e3 = true -> build_agraph_stack e3 = Some out ->
   out <> [] /\ scoped out /\
-  forall cv, exists cv', forall xv, sem A xv cv' (denote (renumber out 0)) = sem A xv cv (denote s).
-Proof. intros V A L. apply simplify_pipeline. exact L. Qed.
-Print Assumptions C03_simplify_preserves_the_expressible_functions_partial.
+  forall cv, exists cv', forall xv v,
+    sem real_alg xv cv (denote s) = Some v -> sem real_alg xv cv' (denote (renumber out 0)) = Some v.
+Proof. exact (simplify_pipeline real_alg oref true real_laws). Qed.
+Print Assumptions C03_simplify_refines_the_expressible_functions_over_the_reals_partial.
 
+(* ---- the model's assertion flags.  Switching assertions on only removes answers: every answer of the checked model is the
+        answer of the code as written.  The integer-exponent assertion provably never fires - with unbounded integer folding - on
+        expressions whose power nodes all carry INTEGER-leaf exponents, in particular on everything built from a stack without
+        power operators; with int64 folding (fits64, the code) it can only fire after an exponent computation overflowed. ---- *)
+Theorem C03_every_answer_of_the_checked_model_is_the_answer_of_the_code_as_written :
+  forall fits depth rf e r,
+  automatic_simplify true true fits depth rf e = Some r -> automatic_simplify false false fits depth rf e = Some r.
+Proof. exact checked_answers_are_the_codes. Qed.
+Print Assumptions C03_every_answer_of_the_checked_model_is_the_answer_of_the_code_as_written.
+
+Theorem C03_the_integer_exponent_guard_never_fires_on_integer_exponents :
+  forall chk fits, (forall k, fits k = true) -> forall depth rf e, int_exps e = true ->
+  automatic_simplify chk true fits depth rf e = automatic_simplify chk false fits depth rf e /\
+  forall r, automatic_simplify chk false fits depth rf e = Some r -> int_exps r = true.
+Proof. exact guard_automatic. Qed.
+Print Assumptions C03_the_integer_exponent_guard_never_fires_on_integer_exponents.
+
+Theorem C03_the_integer_exponent_guard_never_fires_on_power_free_stacks :
+  forall chk fits s e0, (forall k, fits k = true) ->
+  (forall c, In c s -> node_of c <> POWER /\ node_of c <> SAFE_POWER) -> build_cas s = Some e0 ->
+  forall depth rf, automatic_simplify chk true fits depth rf e0 = automatic_simplify chk false fits depth rf e0.
+Proof. exact power_free_stack_simplified_as_written. Qed.
+Print Assumptions C03_the_integer_exponent_guard_never_fires_on_power_free_stacks.
+
+(* ---- the headline for equations without power operators: at every point and every setting of the constants at which the
+        ORIGINAL STACK evaluates to a finite real, the automatically simplified expression evaluates to the same real.
+        (a) int64 folding as in the code: for every answer of the checked model, which is then also the code's answer;
+        (b) unbounded folding: for every answer of the model without the integer-exponent assertion ---- *)
+Theorem C03_power_free_equations_are_refined_pointwise_over_the_reals :
+  forall s e0 depth rf r, scoped s -> s <> [] -> build_cas s = Some e0 ->
+  automatic_simplify true true fits64 depth rf e0 = Some r ->
+  automatic_simplify false false fits64 depth rf e0 = Some r /\
+  forall xv cv v, sem real_alg xv cv (denote s) = Some v -> ev real_alg xv (cv_row cv s) r = Some v.
+Proof.
+  intros s e0 depth rf r Sc NE H0 H1. split; [apply checked_answers_are_the_codes; exact H1|]. intros xv cv v Hv.
+  apply (auto_sound real_alg oref true real_laws fits64 xv (cv_row cv s) depth rf e0 r H1).
+  rewrite (build_cas_sound real_alg xv (l_add_0_r _ _ _ real_laws) (l_mul_1_r _ _ _ real_laws) cv s e0 Sc NE H0). exact Hv.
+Qed.
+Print Assumptions C03_power_free_equations_are_refined_pointwise_over_the_reals.
+
+Theorem C03_power_free_equations_are_refined_pointwise_with_unbounded_integer_folding :
+  forall fits s e0 depth rf r, (forall k, fits k = true) ->
+  (forall c, In c s -> node_of c <> POWER /\ node_of c <> SAFE_POWER) -> scoped s -> s <> [] ->
+  build_cas s = Some e0 -> automatic_simplify true false fits depth rf e0 = Some r ->
+  forall xv cv v, sem real_alg xv cv (denote s) = Some v -> ev real_alg xv (cv_row cv s) r = Some v.
+Proof.
+  intros fits s e0 depth rf r FA NP Sc NE H0 H1 xv cv v Hv.
+  rewrite <- (power_free_stack_simplified_as_written true fits s e0 FA NP H0) in H1.
+  apply (auto_sound real_alg oref true real_laws fits xv (cv_row cv s) depth rf e0 r H1).
+  rewrite (build_cas_sound real_alg xv (l_add_0_r _ _ _ real_laws) (l_mul_1_r _ _ _ real_laws) cv s e0 Sc NE H0). exact Hv.
+Qed.
+Print Assumptions C03_power_free_equations_are_refined_pointwise_with_unbounded_integer_folding.
+
+(* ---- any algebra, any preorder: the same two statements relative to the list of identities ---- *)
+Theorem C03_automatic_simplify_sound_in_every_model_of_the_identities :
+  forall (V : Type) (A : alg V) ref iexp, cas_laws A ref iexp -> forall fits xv cv depth rf e r,
+  automatic_simplify true iexp fits depth rf e = Some r -> ref (ev A xv cv r) (ev A xv cv e).
+Proof. intros V A ref iexp L fits xv cv depth rf e r. apply auto_sound. exact L. Qed.
+Print Assumptions C03_automatic_simplify_sound_in_every_model_of_the_identities.
+
+Theorem C03_simplify_pipeline_in_every_model_of_the_identities_partial :
+  forall (V : Type) (A : alg V) ref iexp, cas_laws A ref iexp ->
+  forall fits fold s e0 e1 e3 out fuel,
+  fold_contract A ref fold -> scoped s -> s <> [] ->
+  build_cas s = Some e0 -> automatic_simplify true iexp fits fuel fuel e0 = Some e1 ->
+  optional_modifications fuel (fold e1) = Some e3 -> arity_ok e3 = true -> build_agraph_stack e3 = Some out ->
+  out <> [] /\ scoped out /\
+  forall cv, exists cv', forall xv, ref (sem A xv cv' (denote (renumber out 0))) (sem A xv cv (denote s)).
+Proof. intros V A ref iexp L. apply simplify_pipeline. exact L. Qed.
+Print Assumptions C03_simplify_pipeline_in_every_model_of_the_identities_partial.
+
+(* the identities hold pointwise over the reals with the integer-exponent guard ... *)
+Theorem C03_the_identities_hold_over_the_reals_for_integer_exponents : cas_laws real_alg oref true.
+Proof. exact real_laws. Qed.
+Print Assumptions C03_the_identities_hold_over_the_reals_for_integer_exponents.
+
+(* ... and read as unconditional equations without the guard they force 0 = 1 *)
 Theorem C03_the_identities_are_only_jointly_valid_in_the_degenerate_algebra :
-  forall (V : Type) (A : alg V), cas_laws A -> a_of_int A 0 = a_of_int A 1.
+  forall (V : Type) (A : alg V), cas_laws A eq false -> a_of_int A 0 = a_of_int A 1.
 Proof. exact @cas_laws_degenerate. Qed.
 Print Assumptions C03_the_identities_are_only_jointly_valid_in_the_degenerate_algebra.
 
-(* non-vacuity: the interpreter theorems' hypotheses hold over the integers; a concrete stack through the whole model pipeline
-   (fold = identity): (X_0 + 2) + (X_0 - 2)*1 + sin(0)  ->  X_0 + X_0 collected to 2*X_0 *)
+(* non-vacuity: a concrete stack through the whole model pipeline with the guard on (fold = identity):
+   (X_0 + 2) + (X_0 - 2)*1 + sin(0)  ->  X_0 + X_0 collected to 2*X_0; and x/x -> 1, which is a proper refinement: at X_0 = 0
+   the original is undefined, the result is 1; at X_0 = 2 both are 1 *)
 Definition ex_s : stack := [(0, 0, 0); (-1, 2, 2); (2, 0, 1); (3, 0, 1); (-1, 1, 1); (4, 3, 4); (2, 2, 5); (-1, 0, 0); (6, 7, 7); (2, 6, 8)]%Z.
+Definition x_over_x : cexpr := Node DIVISION [Leaf VARIABLE 0; Leaf VARIABLE 0].
+Definition x2_over_x : cexpr := Node DIVISION [Node MULTIPLICATION [Leaf VARIABLE 0; Leaf VARIABLE 0]; Leaf VARIABLE 0].
 Example C03_example :
-  simplify_stack true 200 (fun e => e) ex_s = Some [(-1, 2, 2); (0, 0, 0); (4, 0, 1)]%Z /\
+  simplify_stack true true fits64 200 (fun e => e) ex_s = Some [(-1, 2, 2); (0, 0, 0); (4, 0, 1)]%Z /\
   (forall x, root z_alg [(-1, 2, 2); (0, 0, 0); (4, 0, 1)]%Z (fun _ => x) (fun _ => 0%Z) = (2 * x)%Z) /\
-  (forall a : Z, (a + 0 = a)%Z) /\ (forall a : Z, (a * 1 = a)%Z).
-Proof. split; [vm_compute; reflexivity|]. split; [intros x; cbv -[Z.mul Z.add]; lia|]. split; intros a; lia. Qed.
+  automatic_simplify true true fits64 20 20 x_over_x = Some ONE /\
+  automatic_simplify true true fits64 20 20 x2_over_x = Some (Leaf VARIABLE 0) /\
+  (forall cv, ev real_alg (fun _ => Some 0%R) cv x_over_x = None /\ ev real_alg (fun _ => Some 0%R) cv ONE = Some 1%R) /\
+  (forall cv, ev real_alg (fun _ => Some 2%R) cv x_over_x = Some 1%R) /\
+  (* 3^40 does not fit the int64 command array: it is not folded (fix F20) *)
+  automatic_simplify true true fits64 20 20 (Node POWER [mk_int 3; mk_int 40]) = Some (Node POWER [mk_int 3; mk_int 40]) /\
+  automatic_simplify true true fits64 20 20 (Node POWER [mk_int 3; mk_int 39]) = Some (mk_int 4052555153018976267).
+Proof.
+  split; [vm_compute; reflexivity|]. split; [intros x; cbv -[Z.mul Z.add]; lia|].
+  split; [vm_compute; reflexivity|]. split; [vm_compute; reflexivity|]. split; [intros cv|split; [intros cv|]].
+  - split; [|reflexivity]. cbn. destruct (Req_EM_T 0 0) as [_|N]; [reflexivity|contradiction].
+  - cbn. destruct (Req_EM_T 2 0) as [E|_]; [exfalso; lra|]. f_equal. field.
+  - split; vm_compute; reflexivity.
+Qed.
